@@ -126,18 +126,27 @@ def solver_residual_ok(fn, r):
     from spectrum.toeplitz import HERMTOEP, TOEPLITZ
     from spectrum import CHOLESKY
     if fn == 'HERMTOEP':
-        T0 = float.fromhex(r['T0']); T = vlib.unhexv(r['T']); Z = vlib.unhexv(r['Z'])
+        T0 = float.fromhex(r['T0']); T = vlib.unhexv(r['T']); Z = as_kind(vlib.unhexv(r['Z']), r.get('Zkind'))
         X = HERMTOEP(T0, T, Z); M = toeplitz_matrix(np.concatenate(([T0], T)))
         return np.max(np.abs(M @ X - Z)) <= 1e-8 * np.linalg.cond(M) * max(1, np.max(np.abs(Z)))
     if fn == 'TOEPLITZ':
-        T0 = complex(*[float.fromhex(t) for t in r['T0']]); TC = vlib.unhexv(r['TC']); TR = vlib.unhexv(r['TR']); Z = vlib.unhexv(r['Z'])
+        T0 = complex(*[float.fromhex(t) for t in r['T0']]); TC = vlib.unhexv(r['TC']); TR = vlib.unhexv(r['TR']); Z = as_kind(vlib.unhexv(r['Z']), r.get('Zkind'))
         X = TOEPLITZ(T0, TC, TR, Z); M = gen_toeplitz(T0, TC, TR)
         return np.max(np.abs(M @ X - Z)) <= 1e-8 * np.linalg.cond(M) * max(1, np.max(np.abs(Z)))
     if fn == 'CHOLESKY':
-        A = vlib.unhexv(r['A']).reshape(r['n'], r['n']); B = vlib.unhexv(r['B'])
+        A = vlib.unhexv(r['A']).reshape(r['n'], r['n']); B = as_kind(vlib.unhexv(r['B']), r.get('Zkind'))
         X = CHOLESKY(A, B, method=r['method'])
         return np.max(np.abs(A @ X - B)) <= 1e-8 * np.linalg.cond(A) * max(1, np.max(np.abs(B)))
     return True
+
+
+def as_kind(Z, kind):
+    """the right-hand side with the dtype it had when the case was generated"""
+    if kind == 'real':
+        return np.real(Z).astype(float)
+    if kind == 'int':
+        return np.real(Z).round().astype(int)
+    return Z
 
 
 def gen_toeplitz(T0, TC, TR):
@@ -304,8 +313,15 @@ def run(ctx):
         p = int(rng.integers(1, ctx.q(12, 30))); N = p + int(rng.integers(4, 40))
         x = rng.standard_normal(N) + 1j * rng.standard_normal(N)
         r = np.array([np.sum(x[k:] * np.conj(x[:N - k])) / N for k in range(p + 1)]); r[0] = np.real(r[0]) * 1.05
-        Z = rng.standard_normal(p + 1) + 1j * rng.standard_normal(p + 1)
-        rep = {'function': 'HERMTOEP', 'T0': float(np.real(r[0])).hex(), 'T': vlib.hexv(r[1:]), 'Z': vlib.hexv(Z)}
+        zk = str(rng.choice(['complex', 'complex', 'real', 'int']))
+        if zk == 'complex':
+            Z = rng.standard_normal(p + 1) + 1j * rng.standard_normal(p + 1)
+        elif zk == 'real':
+            Z = rng.standard_normal(p + 1)
+        else:
+            Z = rng.integers(-5, 6, size=p + 1); Z[0] = 1
+        ctx.count('search/rhs-dtype/' + zk)
+        rep = {'function': 'HERMTOEP', 'T0': float(np.real(r[0])).hex(), 'T': vlib.hexv(r[1:]), 'Z': vlib.hexv(Z), 'Zkind': zk}
         ctx.case(('search-herm', r.tobytes(), Z.tobytes()), nontrivial=(p >= 2)); ctx.count('search/HERMTOEP')
         try:
             if not solver_residual_ok('HERMTOEP', rep):
@@ -316,7 +332,7 @@ def run(ctx):
         T0 = complex(np.real(r[0]) * 2)
         M = gen_toeplitz(T0, TC, TR)
         if np.linalg.cond(M) < 1e4:
-            rep = {'function': 'TOEPLITZ', 'T0': [T0.real.hex(), T0.imag.hex()], 'TC': vlib.hexv(TC), 'TR': vlib.hexv(TR), 'Z': vlib.hexv(Z)}
+            rep = {'function': 'TOEPLITZ', 'T0': [T0.real.hex(), T0.imag.hex()], 'TC': vlib.hexv(TC), 'TR': vlib.hexv(TR), 'Z': vlib.hexv(Z), 'Zkind': zk}
             ctx.case(('search-toep', TC.tobytes(), TR.tobytes(), Z.tobytes()), nontrivial=(p >= 2)); ctx.count('search/TOEPLITZ')
             try:
                 if not solver_residual_ok('TOEPLITZ', rep):
@@ -325,7 +341,7 @@ def run(ctx):
                 ctx.count('search/TOEPLITZ/raised-singular-leading-minor')
         A = toeplitz_matrix(r) + np.diag(rng.uniform(0, 0.2, size=p + 1))
         for method in ('scipy', 'numpy', 'numpy_solver'):
-            rep = {'function': 'CHOLESKY', 'A': vlib.hexv(A), 'n': p + 1, 'B': vlib.hexv(Z), 'method': method}
+            rep = {'function': 'CHOLESKY', 'A': vlib.hexv(A), 'n': p + 1, 'B': vlib.hexv(Z), 'method': method, 'Zkind': zk}
             ctx.case(('search-chol', A.tobytes(), Z.tobytes(), method), nontrivial=(p >= 2)); ctx.count('search/CHOLESKY/' + method)
             try:
                 if not solver_residual_ok('CHOLESKY', rep):
